@@ -827,6 +827,22 @@ fn cram_roundtrip(tier: &str) -> Result<String, String> {
 // a full scan keeps, in file order.  Record spans are chosen to cross the 16 kb / 128 kb / 1 Mb / 8 Mb / 64 Mb bin edges,
 // with long records preceding short ones.  Never counted as proved.
 fn index_query(_tier: &str) -> Result<String, String> {
+    // an index read back from the file it was written to: same geometry, header (tabix: format, columns, names), unplaced count (Some(0) is not None),
+    // and per reference sequence the same bins, chunks and metadata pseudo-bin (the linear index too; the binned loffsets are rewritten by the writer: F2)
+    macro_rules! same_index { ($what:expr, $a:expr, $b:expr, $linear:expr, $fails:expr) => {{
+        use csi::binning_index::{BinningIndex as _, ReferenceSequence as _};
+        let (a, b) = ($a, $b);
+        let mut d: Vec<String> = Vec::new();
+        if a.min_shift() != b.min_shift() || a.depth() != b.depth() { d.push(format!("geometry ({}, {}) -> ({}, {})", a.min_shift(), a.depth(), b.min_shift(), b.depth())); }
+        if a.header() != b.header() { d.push("header".into()); }
+        if a.unplaced_unmapped_record_count() != b.unplaced_unmapped_record_count() { d.push(format!("unplaced unmapped record count {:?} -> {:?}", a.unplaced_unmapped_record_count(), b.unplaced_unmapped_record_count())); }
+        if a.reference_sequences().len() != b.reference_sequences().len() { d.push(format!("{} -> {} reference sequences", a.reference_sequences().len(), b.reference_sequences().len())); }
+        else { for (k, (x, y)) in a.reference_sequences().iter().zip(b.reference_sequences().iter()).enumerate() {
+            if x.bins() != y.bins() { d.push(format!("bins of reference sequence {k}")); } if x.metadata() != y.metadata() { d.push(format!("metadata of reference sequence {k}")); }
+            if $linear && format!("{:?}", x.index()) != format!("{:?}", y.index()) { d.push(format!("linear index of reference sequence {k}")); } } }
+        if !d.is_empty() { $fails.push((format!("index file {}", $what), format!("index file [{}]: the index read back differs from the one written in: {}", $what, d.join(", ")))); }
+    }} }
+    let idx_fails: std::cell::RefCell<Vec<(String, String)>> = std::cell::RefCell::new(Vec::new());
     use noodles_sam as sam;
     use noodles_vcf as vcf;
     use noodles_csi::{self as csi, BinningIndex};
@@ -877,6 +893,7 @@ fn index_query(_tier: &str) -> Result<String, String> {
         let bai = noodles_bam::fs::index(&bam_path).map_err(|e| format!("bam::fs::index: {e}"))?;
         noodles_bam::bai::fs::write(dir.join("a.bai"), &bai).map_err(|e| format!("bai write: {e}"))?;
         let bai2 = noodles_bam::bai::fs::read(dir.join("a.bai")).map_err(|e| format!("bai read: {e}"))?;
+        same_index!("BAI", &bai, &bai2, true, idx_fails.borrow_mut());
         // a CSI index for the same file, built the way bam::fs::index builds the BAI
         let csi_mem = { let mut rd = noodles_bam::io::Reader::new(std::fs::File::open(&bam_path).map_err(|e| format!("open: {e}"))?); rd.read_header().map_err(|e| format!("read_header: {e}"))?;
             let mut ix = csi::binning_index::Indexer::<csi::binning_index::index::reference_sequence::index::BinnedIndex>::new(14, 5);
@@ -888,6 +905,7 @@ fn index_query(_tier: &str) -> Result<String, String> {
             ix.build(3) };
         csi::fs::write(dir.join("a.csi"), &csi_mem).map_err(|e| format!("csi write: {e}"))?;
         let csi_file = csi::fs::read(dir.join("a.csi")).map_err(|e| format!("csi read: {e}"))?;
+        same_index!("CSI of a BAM", &csi_mem, &csi_file, false, idx_fails.borrow_mut());
         let mut run = |iname: &str, query: &mut dyn FnMut(&noodles_core::Region) -> Result<Vec<String>, String>, reuse: bool| {
             // reuse: ONE reader serves every query, the regions are visited from the last to the first and each one twice in a row
             // (a query must not depend on where an earlier query left the reader)
@@ -948,7 +966,7 @@ fn index_query(_tier: &str) -> Result<String, String> {
             for (i, (s, span)) in feats.iter().enumerate() { vtruth.insert(format!("v{i}"), (*s, s + span - 1)); }
             for i in 0..300 { vtruth.insert(format!("w{i}"), (1 + i * 7, 1 + i * 7 + 4)); }
             let tbi = vcf::fs::index(&vpath).map_err(|e| format!("vcf::fs::index ({fmt}): {e}"))?;
-            noodles_tabix::fs::write(dir.join("v.tbi"), &tbi).map_err(|e| format!("tabix write: {e}"))?; let tbi2 = noodles_tabix::fs::read(dir.join("v.tbi")).map_err(|e| format!("tabix read: {e}"))?;
+            noodles_tabix::fs::write(dir.join("v.tbi"), &tbi).map_err(|e| format!("tabix write: {e}"))?; let tbi2 = noodles_tabix::fs::read(dir.join("v.tbi")).map_err(|e| format!("tabix read: {e}"))?; same_index!("tabix", &tbi, &tbi2, true, idx_fails.borrow_mut());
             let mut check = |what: &str, refname: &str, region: &noodles_core::Region, got: Result<Vec<String>, String>| {
                 // the spans come from the generator, not from the library's variant_end
                 let expected: Vec<String> = recs.iter().filter(|r| r.reference_sequence_name() == refname).filter_map(|r| { let k = key(r); let (s, e) = *vtruth.get(&k)?; if region.interval().intersects((p(s)..=p(e)).into()) { Some(k) } else { None } }).collect();
@@ -968,7 +986,7 @@ fn index_query(_tier: &str) -> Result<String, String> {
             } }
             if let Err(e) = &bcf_ok { if fileformat == "VCFv4.3" { fails.entry("bcf write".into()).or_insert_with(|| format!("index query [BCF]: writing the BCF file fails: {e}")); } continue; }
             let cix = noodles_bcf::fs::index(&bpath).map_err(|e| format!("bcf::fs::index ({fmt}): {e}"))?;
-            csi::fs::write(dir.join("b.csi"), &cix).map_err(|e| format!("csi write: {e}"))?; let cix2 = csi::fs::read(dir.join("b.csi")).map_err(|e| format!("csi read: {e}"))?;
+            csi::fs::write(dir.join("b.csi"), &cix).map_err(|e| format!("csi write: {e}"))?; let cix2 = csi::fs::read(dir.join("b.csi")).map_err(|e| format!("csi read: {e}"))?; same_index!("CSI of a BCF", &cix, &cix2, false, idx_fails.borrow_mut());
             for refname in ["sq0", "empty", "sq2"] { for region in regions_for(refname) {
                 if refname != "sq0" && region.interval().start().map(usize::from).unwrap_or(1) > 100_000 { continue; }
                 for (iname, ix) in [("BCF CSI in memory", &cix), ("BCF CSI from file", &cix2)] {
@@ -984,6 +1002,7 @@ fn index_query(_tier: &str) -> Result<String, String> {
     let _ = std::fs::remove_dir_all(&dir);
     for (k, v) in &mism { let mut h: u64 = 0xcbf29ce484222325; for b in v.join("|").bytes() { h ^= b as u64; h = h.wrapping_mul(0x100000001b3); }
         fails.insert(format!("m {k}"), format!("index query [{k} in {} region(s), digest {:08x}; first: {}", v.len(), h as u32, &v[0][..v[0].len().min(160)])); }
+    for (k, v) in idx_fails.borrow().iter() { fails.entry(k.clone()).or_insert_with(|| v.clone()); }
     // ---- optimize_chunks / merge_chunks (C17 sentence 1, second half), exhaustively on small lists — ALSO lists no noodles indexer produces
     // (nested and overlapping chunks, as foreign indexes hold): every unit [v, v+1) of the file covered by a chunk that ends after min_offset
     // stays covered, nothing uncovered becomes covered, and the result is sorted and pairwise disjoint ----
